@@ -73,10 +73,15 @@ INF = 10 ** 9
 SPY_NAMES = {"an_time": "T", "an_period": "P"}
 
 
+_QUIET = []
+
+
 def _mods():
-    import warnings
-    # fill values / NaT in the argument grids make numpy warn (overflow, invalid value); the outcomes are compared anyway
-    warnings.filterwarnings("ignore", category=RuntimeWarning, module=r"pyorbital\..*")
+    if not _QUIET:
+        import warnings
+        # fill values / NaT in the argument grids make numpy warn (overflow, invalid value); outcomes are compared anyway
+        warnings.filterwarnings("ignore", category=RuntimeWarning, module=r"pyorbital\..*")
+        _QUIET.append(True)
     from pyorbital import orbital, astronomy, tlefile
     return orbital, astronomy, tlefile
 
@@ -993,13 +998,14 @@ def concurrency(ctx, sats, judge, spy, mode, budget, scale=1):
         for plan in triple:
             go(sat, [qa, qb, qc], plan, "orbit|orbit|orbit A^k B* A^m C* A*")
         # --- single pre-emption below the own frame (scratch state of the propagator, the node search)
-        more = set(firsts) if mode == "full" and (lead or thorough) else set()
+        more = set(firsts if thorough else sample(rng, firsts, 60 * scale)) if mode == "full" and (lead or thorough) else set()
         rest = [k for k in range(n + 1) if k not in ks and k not in more]
         more |= set(sample(rng, rest, ((1000 if lead and mode == "full" else 150) if thorough else 20) * scale))
         for k in sorted(more):
             go(sat, [qa, qb], [[0, k], [1, INF]], "orbit|orbit single pre-emption")
         # --- two pre-emptions: A^k B^m A* B*
-        ms = set(range(1, 6)) | (set(own) if thorough and lead else set(sample(rng, own[5:], 4 * scale)))
+        ms = (set(range(1, 6)) | set(own)) if thorough and lead else \
+            (set(range(1, 4 if not thorough else 6)) | set(sample(rng, own[5:], ((scale - 1) if not thorough else 4 * scale))))
         double = [[[0, k], [1, m], [0, INF], [1, INF]] for k in own for m in sorted(ms)]
         if not lead:
             double = [double[i] for i in sample(rng, range(len(double)), (100 if thorough else 30) * scale)]
@@ -1012,14 +1018,14 @@ def concurrency(ctx, sats, judge, spy, mode, budget, scale=1):
                 seen_m.add(q["m"])
                 others.append(q)
         for q in others:
-            kk = own if thorough and lead else (own[::2] if lead or thorough else sample(rng, own, 5 * scale))
+            kk = own if thorough and lead else (own[::2] if thorough else (own[::3] if lead else sample(rng, own, 5 * scale)))
             if mode == "full" and thorough and lead:
                 kk = sorted(set(kk) | set(firsts[::3]))
             for k in kk:
                 go(sat, [qa, q], [[0, k], [1, INF]], "orbit pre-empted by " + q["m"])
             nq, ownq, firstsq, _ = points_of(sat, q, occ=1)
             pts = sorted(set(ownq) | set(firstsq) | {nq})
-            pts = sample(rng, pts, ((40 if lead else 15) if thorough else ((15 if lead else 5) if mode == "full" else 4)) * scale)
+            pts = sample(rng, pts, ((40 if lead else 15) if thorough else ((8 if lead else 4) if mode == "full" else 4)) * scale)
             for k in pts:
                 go(sat, [qa, q], [[1, k], [0, INF]], q["m"] + " pre-empted by orbit")
         # --- sampled multi-pre-emption schedules; 3 threads in the thorough tier; sometimes on a warmed object
